@@ -118,6 +118,7 @@ type run struct {
 	force    []string
 	inlined  map[string]bool
 	depthCap int
+	sentinels []*ssa.Global
 }
 
 type execError struct{ msg string }
@@ -303,7 +304,7 @@ func (r *run) typeFacts(t types.Type, term string) string {
 	so := r.eng.Sorts.SortOf(t)
 	if strings.HasPrefix(so, "Slice_") {
 		m := strings.TrimPrefix(so, "Slice_")
-		return fmt.Sprintf("(and (<= 0 (len_%s %s)) (<= (len_%s %s) (cap_%s %s)) (=> (not (nn_%s %s)) (= (cap_%s %s) 0)))", m, term, m, term, m, term, m, term, m, term)
+		return fmt.Sprintf("(and (<= 0 (len_%s %s)) (<= (len_%s %s) (cap_%s %s)) (<= (cap_%s %s) 9223372036854775807) (=> (not (nn_%s %s)) (= (cap_%s %s) 0)))", m, term, m, term, m, term, m, term, m, term, m, term)
 	}
 	if so == "Int" {
 		switch t.Underlying().(type) {
@@ -313,6 +314,9 @@ func (r *run) typeFacts(t types.Type, term string) string {
 	}
 	if so == "Err" {
 		return fmt.Sprintf("(<= 0 %s)", term)
+	}
+	if so == "String" {
+		return fmt.Sprintf("(<= (str.len %s) 9223372036854775807)", term)
 	}
 	if strings.HasPrefix(so, "S_") {
 		si := r.eng.Sorts.StructInfo(so)
@@ -556,6 +560,7 @@ type frame struct {
 	resNames []string
 	loops    map[*ssa.BasicBlock]*loopInfo
 	ensMode  bool
+	lets     map[string]SVal
 }
 
 type retInfo struct {
@@ -1169,7 +1174,6 @@ func (r *run) havocHeaps(st *State, eff *effects) {
 
 func (r *run) loopEnv(fr *frame, li *loopInfo, st *State) *specEnv {
 	env := r.newEnv(fr, st)
-	env.extra = map[string]SVal{}
 	if li.idxCell != nil && li.spec != nil && li.spec.IdxName != "" {
 		if v, ok := st.cells[li.idxCell]; ok {
 			env.extra[li.spec.IdxName] = SVal{Term: fmt.Sprintf("(+ %s 1)", v.Term), Sort: "Int"}
